@@ -332,7 +332,10 @@ def run(ctx):
                     if cls != "scalar":
                         kf = np.array([r.choice([2.0, 0.5, 3.0, 0.1]) for _ in xvals], dtype=float)
                         ki = np.array([r.choice([2, 3, 5]) for _ in xvals], dtype=np.int64)
-                        for kname, k in (("ndarray[f8]", kf), ("ndarray[i8]", ki)):
+                        # a mask (`values > 0` where all are) and an array of python numbers boxed as objects are unit-less numpy operands too
+                        kb = np.array([True for _ in xvals], dtype=bool)
+                        ko = np.array([r.choice([2, 0.5, 3]) for _ in xvals], dtype=object)
+                        for kname, k in (("ndarray[f8]", kf), ("ndarray[i8]", ki), ("ndarray[bool]", kb), ("ndarray[object]", ko)):
                             ctx.nt((cls, cont, len(xvals), qkind, kname))
                             check(ctx, x, xvals, kname, k, case, True, elementwise_k=list(k))
                         # numpy's own idea of a number: a 0-d array and a one-element array apply to every value
